@@ -30,7 +30,8 @@ TReset ==
 
 TDial ==
   /\ Is("Dial")
-  /\ LET o == [hooks |-> Ev.hooks, ops |-> Ev.ops, closed |-> Ev.closed, peer |-> Ev.peer, res |-> Ev.res, short |-> Ev.short] IN
+  /\ LET o == [hooks |-> Ev.hooks, ops |-> Ev.ops, closed |-> Ev.closed, peer |-> Ev.peer, res |-> Ev.res, short |-> Ev.short,
+               rx |-> Ev.rx, plook |-> Ev.plook] IN
      /\ DialAllowed(cfg, st, Ev.d, o, SocksStrict)
      /\ st' = DialNext(st, o)
   /\ UNCHANGED cfg /\ Adv
